@@ -293,6 +293,26 @@ pub fn run() -> i32 {
                 }
             }
         }
+        for op in 0..2u8 {
+            for k in 1..=9u8 {
+                for operand in 0..2u8 {
+                    crate::sym::load(vec![vec![op], vec![k], vec![operand]]);
+                    n += 1;
+                    if std::panic::catch_unwind(|| crate::node::c04_prefix()).is_err() {
+                        c11_bad += 1;
+                        eprintln!("SELFTEST-FAIL: c04_prefix: op={} k={} operand={}", op, k, operand);
+                    }
+                }
+            }
+            for len in 1..=40u8 {
+                crate::sym::load(vec![vec![op], vec![len]]);
+                n += 1;
+                if std::panic::catch_unwind(|| crate::node::c04_chain()).is_err() {
+                    c11_bad += 1;
+                    eprintln!("SELFTEST-FAIL: c04_chain: op={} n={}", op, len);
+                }
+            }
+        }
         // C12: every quoting style x bodies outside the recorded findings
         for b in ["", "b", "B"] {
             for raw in ["", "r", "R"] {
